@@ -39,6 +39,8 @@ if r.returncode != 0:
 b = sh(["go", "build", "./..."])
 if b.returncode != 0:
     print("DOES NOT BUILD", b.stderr[-800:]); clean(); sys.exit(2)
+suite = sh(["go", "test", "-count=1", "-timeout", "900s", "./pkg/..."])
+suite_fail = [l for l in (suite.stdout + suite.stderr).split("\n") if l.startswith("FAIL") or l.startswith("--- FAIL") or l.startswith("panic:")]
 changed = run_demos()
 clean()
 base = run_demos()
@@ -46,7 +48,8 @@ clean()
 fails_changed = any(rc != 0 for rc, _ in changed.values())
 passes_base = all(rc == 0 for rc, _ in base.values()) and len(base) > 0
 print("changed tree:", {d: rc for d, (rc, _) in changed.items()}, " unchanged tree:", {d: rc for d, (rc, _) in base.items()})
-if fails_changed and passes_base:
+print("existing tests on the changed tree:", "all packages pass" if suite.returncode == 0 else "FAILURES " + "; ".join(suite_fail[:8]))
+if fails_changed and passes_base and suite.returncode == 0:
     print("CONFIRMED", out)
 else:
     print("NOT-CONFIRMED", out)
